@@ -27,7 +27,13 @@ COLLIDE = [('split("a", 0)', 'split("A", 0)'), ('description.startswith("u")', '
            ('description.endswith("s")', 'description.endswith("S")'), ('regex("uber")', 'regex("UBER")'),
            ('regex("[a-z]+ [0-9]+")', 'regex("[A-Z]+ [0-9]+")'), ('amount > 1', 'amount>1'), ('"x" in description', '"X" in description'),
            ('regex("^\\\\S+$")', 'regex("^\\\\s+$")'), ('regex("^\\\\D")', 'regex("^\\\\d")'), ('regex("\\\\W\\\\W")', 'regex("\\\\w\\\\w")'),
-           ('extract("(\\\\S+)")', 'extract("(\\\\s+)")')]
+           ('extract("(\\\\S+)")', 'extract("(\\\\s+)")'),
+           # a name BOUND by one evaluation (walrus, a comprehension / generator variable, one abandoned half-way) and READ by the next one:
+           # the second expression knows only the transaction, so the name is undefined there - whatever ran before
+           ('(leak := description) == description', 'leak == description'), ('(tmp := amount + 1) > 0', 'tmp > 0'),
+           ('len([w for w in description]) > 0', 'w == "X"'), ('any(ch == ch for ch in description)', 'ch == ch'),
+           ('next(c for c in description) == c', 'c == "U"'), ('(weekday := 3) == 3', 'weekday == 3'), ('(amount := 7) == 7', 'amount == 7'),
+           ('(month := 13) > 0', 'month'), ('(description := "x") == "x"', 'contains("UBER")')]
 
 
 class Pristine:
